@@ -22,6 +22,7 @@ CLAIMED = {
     "C12": ("The special-operand table of the property (NaN, domain errors, poles, limits, identities) is placed in every lane among every companion class on each architecture; the symmetry/identity relations (odd, even, sincos, fabs/abs, rint/nearbyint, pow(x,0)) are checked bit-for-bit on every point of the unary argument spaces (thorough: all 2^32 float32 arguments).", "6 C12", "xvmath"),
     "C13": ("Every (subject operand, lane position, companion class) triple of stated finite alphabets is executed next to the broadcast batch of the same subject on each architecture: bit-identity for the exact operations of C01-C08, same special-value class and accuracy bound for the elementary functions, with companion classes on both sides of every whole-batch any()/all() threshold.", "6 C13", "xvdrive+xvmath"),
     "C14": ("For every argument of the C10/C11 spaces and every architecture the number of iterations of the data-dependent loops of one call (counted through the XSIMD_VERIF_LOOP_TICK hook) is compared with a frozen per-function constant; calls are aborted after 1000 iterations, and a watchdog catches any call that does not return within 30 s (loops added without a tick).", "6 C14, 8.3", "xvmath"),
+    "C15": ("All 5 242 880 hardware-presentable configurations of the CPUID feature bits and OS states the detector reads are injected and the availability flags compared with the property's decision model (exhaustive); the dispatcher is instantiated for about 600 generated architecture lists and run under every relevant availability vector.", "6 C15", "xvcpuid"),
     "C17": ("Every scalar overload of the list is executed on the full operand spaces of C01/C02/C03/C06/C07/C08 (non-NaN operands) under each architecture's compile flags and judged by the same reference model as the batch lanes, so scalar and batch agree wherever the model is single-valued; clip and integer-exponent pow are checked in both forms against one shared model.", "6 C17", "xvdrive"),
 }
 
@@ -59,6 +60,8 @@ def main():
             "add_only": True,
         },
         "engines": [
+            {"name": "xvcpuid", "path": "harness/h_cpuid.cpp", "serves_properties": ["C15"],
+             "kind_free_text": "exhaustive enumeration of CPUID/XGETBV configurations through the injected source; generated dispatch programs (gen/gen_dispatch.py)"},
             {"name": "xvmath", "path": "engine/xvmath.cpp", "serves_properties": sorted(k for k, v in CLAIMED.items() if "xvmath" in v[2]),
              "kind_free_text": "bounded exhaustive explorer for the elementary functions: complete sweeps of stated argument spaces (all 2^32 float32 arguments in the thorough tier) in two stream orders over every architecture's kernel, ulp-bound and graceful-degradation oracles, MPFR arbiter, loop-tick accounting, hang watchdog"},
             {"name": "xvdrive", "path": "engine/xvdrive.cpp", "serves_properties": sorted(k for k, v in CLAIMED.items() if "xvdrive" in v[2]),
